@@ -75,3 +75,55 @@ Example C06_safe_nonvacuous :
                 [[10; 13; 4; 4; 2]; [10; 13; 4; 5; 2]; [10; 13; -3; 3; 2]] = true.
 Proof. split; [vm_compute; reflexivity|]. eexists. split; [vm_compute; reflexivity|vm_compute; reflexivity]. Qed.
 Print Assumptions C06_safe_nonvacuous.
+
+(* ---- the chain lemma: what the clones compute ------------------------------------------------------------------
+   copy_with_new_dependent_vals (Model: clone_scoped), for chains of arith ops: if the rewritten run [m2] shows,
+   through the substitution deps |-> news ((iv, iter_args) |-> (lb, iter operands) in front of the loop,
+   |-> (i+step, yield operands) at the end of the body), the values the original run [m1] has at the head of the
+   iteration being prepared, then cloned chain + cloned setup leave accelerator a with exactly the registers the
+   original chain + setup leave it with.  This is the step "W (S k)" of C06_loop_rotation for the clone construction. *)
+From Snax Require Import Proofs.C06ChainProofs Proofs.C06BlockProofs.
+
+Theorem C06_clone_chain_correct :
+  forall orc deps news nf ins a o s_in fs blk st nf2 (m1 m2 : mstate) X,
+  all_spure ins = true ->
+  clone_scoped deps news nf ins a s_in fs = (blk, st, nf2) ->
+  incl (ops_of ins) X -> incl (map snd fs) X ->
+  (forall v, In v X -> (mlook (combine deps news) v < nf)%nat) ->
+  corr (combine deps news) (env m1) (env m2) X ->
+  forall f, (regs m2 a f = regs m1 a f \/ In f (map fst fs)) ->
+  regs (exec_block orc blk m2) a f = regs (exec_block orc (ins ++ [SSetup a o (Some s_in) fs]) m1) a f.
+Proof. exact clone_scoped_correct. Qed.
+Print Assumptions C06_clone_chain_correct.
+
+(* ---- block level, canonical shape (launch ; awaits ; arith chain ; setup  ==>  launch ; chain ; setup ; awaits) ----
+   block_overlap_preserves_partial: identical machine states from every start state, in any context (any prefix,
+   any continuation): same registers at every later launch, same number and order of launches and awaits. *)
+Theorem C06_block_overlap_preserves_partial :
+  forall orc pre lau aw ins a o s fs post m,
+  forallb is_await aw = true -> all_spure ins = true ->
+  exec_block orc (pre ++ lau :: aw ++ ins ++ SSetup a o (Some s) fs :: post) m
+  = exec_block orc (pre ++ lau :: ins ++ SSetup a o (Some s) fs :: aw ++ post) m.
+Proof. exact block_overlap_canonical. Qed.
+Print Assumptions C06_block_overlap_preserves_partial.
+
+(* block_overlap_scoped_partial: the moved ops use no value that is not yet available *)
+Theorem C06_block_overlap_scoped_partial :
+  forall aw q post d,
+  forallb is_await aw = true -> forallb is_quiet q = true ->
+  (exists d', scope_block d (aw ++ q ++ post) = Some d') ->
+  exists d'', scope_block d (q ++ aw ++ post) = Some d''.
+Proof. exact block_overlap_scoped_canonical. Qed.
+Print Assumptions C06_block_overlap_scoped_partial.
+
+(* the model's block rule produces exactly this shape on a canonical instance (and the real pass does what the
+   model does: per-rewrite correspondence) *)
+Example C06_block_canonical_instance :
+  block_overlap (mkProg [0; 1]%nat
+     [SSetup 0 2 None [(0, 0)]; SLaunch 0 3 2 []; SAwait 0 3; SPure 4 (PBin BAdd 0 1); SPure 5 (PId 4);
+      SSetup 0 6 (Some 2) [(0, 5)]; SLaunch 0 7 6 []; SAwait 0 7]%nat) 6%nat
+  = Some (mkProg [0; 1]%nat
+     [SSetup 0 2 None [(0, 0)]; SLaunch 0 3 2 []; SPure 4 (PBin BAdd 0 1); SPure 5 (PId 4);
+      SSetup 0 6 (Some 2) [(0, 5)]; SAwait 0 3; SLaunch 0 7 6 []; SAwait 0 7]%nat).
+Proof. vm_compute. reflexivity. Qed.
+Print Assumptions C06_block_canonical_instance.
